@@ -110,7 +110,24 @@ func (m *Manager) createNew() error {
 
 func (m *Manager) writeCurrent() error {
 	tmp := filepath.Join(m.dir, manifestTempCurrentName)
-	if err := m.fs.WriteFile(tmp, []byte(m.current), manifestFilePermissions); err != nil {
+	f, err := m.fs.OpenFileHandle(tmp, os.O_CREATE|os.O_WRONLY|os.O_TRUNC, manifestFilePermissions)
+	if err != nil {
+		return err
+	}
+	if _, err := f.Write([]byte(m.current)); err != nil {
+		_ = f.Close()
+		return err
+	}
+	// The manifest name must be on stable storage before CURRENT switches to it:
+	// a CURRENT that holds only part of the name points at no file, and Open
+	// would then start an empty manifest.
+	if m.syncWrites {
+		if err := f.Sync(); err != nil {
+			_ = f.Close()
+			return err
+		}
+	}
+	if err := f.Close(); err != nil {
 		return err
 	}
 	dst := filepath.Join(m.dir, currentFileName)
